@@ -506,6 +506,15 @@ func compileForPhraseStmt(ctx *blockCtx, v *ast.ForPhraseStmt) {
 	cb.End()
 }
 
+// isNegativeLit reports whether x is a negative number literal (-1, -2, ...).
+func isNegativeLit(x ast.Expr) bool {
+	if v, ok := x.(*ast.UnaryExpr); ok && v.Op == token.SUB {
+		_, ok = v.X.(*ast.BasicLit)
+		return ok
+	}
+	return false
+}
+
 func toForStmt(forPos token.Pos, value ast.Expr, body *ast.BlockStmt, re *ast.RangeExpr, tok token.Token, fp *ast.ForPhrase) *ast.ForStmt {
 	nilIdent := value == nil
 	if !nilIdent {
@@ -534,8 +543,11 @@ func toForStmt(forPos token.Pos, value ast.Expr, body *ast.BlockStmt, re *ast.Ra
 		initLhs = append(initLhs, cond)
 		initRhs = append(initRhs, re.Last)
 	}
+	condOp := token.LSS
 	if re.Expr3 == nil {
 		post = &ast.BasicLit{ValuePos: forPos, Kind: token.INT, Value: "1"}
+	} else if isNegativeLit(re.Expr3) { // start:end:-k counts down while value > end
+		post, condOp = re.Expr3, token.GTR
 	} else {
 		switch re.Expr3.(type) {
 		case *ast.Ident, *ast.BasicLit:
@@ -581,7 +593,7 @@ func toForStmt(forPos token.Pos, value ast.Expr, body *ast.BlockStmt, re *ast.Ra
 		Cond: &ast.BinaryExpr{
 			X:     value,
 			OpPos: re.To,
-			Op:    token.LSS,
+			Op:    condOp,
 			Y:     cond,
 		},
 		Post: &ast.AssignStmt{
